@@ -17,6 +17,7 @@ def plan(tier):
         Q(P, 5, [], env={2: '********'}, k=10, more_profile=[[ord(c) for c in w] + [0] * (8 - len(w)) for w in ('WITHOUT', 'without', 'True', 'FALSE', 'yes', 'Off', '1', 'N')]),   # closed vocabulary: every string up to 8 bytes
         Q(P, 5, ['-*'], env={2: '***'}),                  # env consulted only when not given
         Q(P, 6, ['***'], env={2: '***'}),                 # reversible default-1 toggle + env
+        Q(P, 6, ['--no-t'], env={2: '***'}, wit=(W_OK,)),  # the command line wins over the environment also for the negated spelling
         Q(P, 7, ['--o', '?'], env={1: '***'}),            # toggle default 2 + env
     ]
     if th:
